@@ -154,10 +154,39 @@ func (in *Interp) dispatch(cc *CallCtx, ret func(*State, []Val)) {
 			name = shortPkg(recvN.Obj().Pkg()) + "." + recvN.Obj().Name() + "." + fn.Name()
 		}
 		st.emit(&Sym{Kind: "dyn", Name: name, Pos: cc.Site.Pos(), Args: cc.Args, Arg: derefVal(cc.Recv)})
+		if sig.Results().Len() > 0 && isIntType(sig.Results().At(0).Type()) {
+			// a length computed behind an interface: a symbolic term named after the interface
+			arg0 := ""
+			if len(cc.Args) > 0 {
+				arg0 = nameOf(cc.Args[0])
+			}
+			lin := Val{K: KLin, Lin: linTerm("dyn:" + dynStem(name) + "(" + arg0 + ")")}
+			in.forkErr(sig, st, func(s *State, vals []Val) {
+				vals[0] = lin
+				ret(s, vals)
+			})
+			return
+		}
 		in.forkErr(sig, st, ret)
 		return
 	}
 	if isModulePkg(fn.Pkg()) {
+		// pure boolean predicates that iterate over their argument (their result would be unknown
+		// after loop summarisation): a named atom, answered consistently along the path
+		if sig.Results().Len() == 1 && in.isPureLoopPredicate(fn) {
+			allKeys := len(cc.Args) > 0
+			var ks []string
+			for _, a := range cc.Args {
+				if a.K != KExpr {
+					allKeys = false
+				}
+				ks = append(ks, a.Key)
+			}
+			if allKeys {
+				ret(st, []Val{{K: KExpr, Key: fn.Name() + "(" + strings.Join(ks, ",") + ")", T: sig.Results().At(0).Type()}})
+				return
+			}
+		}
 		if in.NoInline != nil && in.NoInline(fn) {
 			st.emit(&Sym{Kind: "callatom", Name: fn.FullName(), Pos: cc.Site.Pos(), Args: cc.Args})
 			in.forkErr(sig, st, ret)
@@ -204,6 +233,14 @@ func (in *Interp) external(cc *CallCtx, ret func(*State, []Val)) {
 		ret(cc.St, []Val{v})
 		return
 	case "errors.Is", "errors.As":
+		ret(cc.St, []Val{unknown})
+		return
+	case "(net.IP).To4", "(net.IP).To16":
+		// pure accessors with a documented result length (4 / 16 bytes when non-nil)
+		if cc.Recv != nil && cc.Recv.K == KExpr {
+			ret(cc.St, []Val{{K: KExpr, Key: cc.Recv.Key + "." + fn.Name() + "()", T: sig.Results().At(0).Type()}})
+			return
+		}
 		ret(cc.St, []Val{unknown})
 		return
 	}
@@ -363,9 +400,9 @@ func (in *Interp) convert(v Val, to, from types.Type, st *State) Val {
 			if b, ok := to.Underlying().(*types.Basic); ok && b.Info()&types.IsString != 0 {
 				return unknown
 			}
-			return Val{K: KConst, C: wrapInt(v.C, to), T: to}
+			return Val{K: KConst, C: wrapInt(v.C, to), T: to, Key: v.Key}
 		}
-		return Val{K: KConst, C: v.C, T: to}
+		return Val{K: KConst, C: v.C, T: to, Key: v.Key}
 	case KSym, KExpr, KLin, KObj, KNil, KNonNil, KAlloc, KSlice:
 		nv := v
 		nv.T = to
@@ -380,6 +417,10 @@ func (in *Interp) builtin(name string, x *ast.CallExpr, st *State, fr *frame, k 
 		in.expr(x.Args[0], st, fr, func(st *State, v Val) {
 			switch v.K {
 			case KExpr:
+				if n, ok := knownLen(v.Key); ok {
+					k(st, intVal(n))
+					return
+				}
 				k(st, Val{K: KLin, Lin: linTerm("len(" + v.Key + ")")})
 			case KNil:
 				k(st, intVal(0))
@@ -504,3 +545,63 @@ func init() {
 var compareHook func(in *Interp, op token.Token, l, r Val, st *State) (Tri, bool)
 
 func keyHasPrefix(k, p string) bool { return strings.HasPrefix(k, p) }
+
+// knownLen: lengths fixed by a documented contract of the producing accessor.
+func knownLen(key string) (int64, bool) {
+	switch {
+	case strings.HasSuffix(key, ".To4()"):
+		return 4, true
+	case strings.HasSuffix(key, ".To16()"):
+		return 16, true
+	}
+	return 0, false
+}
+
+// isPureLoopPredicate: fn returns one bool, contains a loop, calls nothing but builtins and
+// conversions, and assigns only its own locals.
+func (in *Interp) isPureLoopPredicate(fn *types.Func) bool {
+	if v, ok := in.purePred[fn]; ok {
+		return v
+	}
+	res := false
+	defer func() { in.purePred[fn] = res }()
+	sig := fn.Type().(*types.Signature)
+	if sig.Results().Len() != 1 {
+		return false
+	}
+	if b, ok := sig.Results().At(0).Type().Underlying().(*types.Basic); !ok || b.Kind() != types.Bool {
+		return false
+	}
+	decl, pkg := in.P.Decl(fn)
+	if decl == nil || decl.Body == nil {
+		return false
+	}
+	hasLoop, pure := false, true
+	ast.Inspect(decl.Body, func(n ast.Node) bool {
+		switch x := n.(type) {
+		case *ast.ForStmt, *ast.RangeStmt:
+			hasLoop = true
+		case *ast.CallExpr:
+			if tv, ok := pkg.TypesInfo.Types[x.Fun]; ok && tv.IsType() {
+				return true
+			}
+			if id, ok := ast.Unparen(x.Fun).(*ast.Ident); ok {
+				if _, isB := pkg.TypesInfo.ObjectOf(id).(*types.Builtin); isB && (id.Name == "len" || id.Name == "cap") {
+					return true
+				}
+			}
+			pure = false
+		case *ast.AssignStmt:
+			for _, l := range x.Lhs {
+				if _, ok := l.(*ast.Ident); !ok {
+					pure = false
+				}
+			}
+		case *ast.GoStmt, *ast.DeferStmt, *ast.SendStmt:
+			pure = false
+		}
+		return true
+	})
+	res = hasLoop && pure
+	return res
+}
